@@ -263,6 +263,8 @@ def strip_tree(t):
 
 def strip_wf(wf):
     return {'steps': {s: {'kind': d['kind'], 'outs': d.get('outs', PLUGIN_OUTS if d['kind'] == 'plugin' else []),
+                          # whether the plugin step declares the cancel signal (the scripted plugin's "work" does, "nowork" does not)
+                          'handler': d['kind'] == 'plugin' and d.get('pstep', 'work') == 'work',
                           'fields': {f: strip_tree(t) for f, t in d['fields'].items()}}
                       for s, d in wf['steps'].items()},
             'outputs': {o: strip_tree(t) for o, t in wf['outputs'].items()}}
